@@ -35,7 +35,43 @@ def main():
     g.add_argument("idx", type=int)
     g.add_argument("--seed", default=None)
     g.add_argument("--tier", default="quick")
+    hh = sub.add_parser("hashes")
+    hh.add_argument("prop")
+    hh.add_argument("--n", type=int, default=200)
+    hh.add_argument("--jobs", type=int, default=16)
+    hh.add_argument("--seed", type=int, default=1)
+    dd = sub.add_parser("determinism")
+    dd.add_argument("props", nargs="*")
+    dd.add_argument("--n", type=int, default=300)
     a = ap.parse_args()
+
+    if a.cmd == "hashes":
+        for i, h in enumerate(runner.hashes(a.prop, profiles.PROPS[a.prop], a.seed, a.n, a.jobs)):
+            print(i, h)
+        return
+
+    if a.cmd == "determinism":
+        build()
+        bad = 0
+        for prop in (a.props or sorted(profiles.PROPS)):
+            outs = []
+            for (hs, jobs) in (("0", 16), ("12345", 5), ("777", 16)):
+                e = dict(os.environ)
+                e["PYTHONHASHSEED"] = hs
+                cp = subprocess.run([sys.executable, os.path.abspath(__file__), "hashes", prop, "--n", str(a.n), "--jobs", str(jobs)],
+                                    capture_output=True, text=True, env=e)
+                outs.append(cp.stdout)
+            same = outs[0] == outs[1] == outs[2] and outs[0].count("\n") == a.n
+            print("%s: %d seeds x 3 executions (PYTHONHASHSEED 0/12345/777, 16/5/16 workers): %s" %
+                  (prop, a.n, "identical" if same else "DIFFER"))
+            if not same:
+                bad += 1
+                l0, l1, l2 = [o.split("\n") for o in outs]
+                for x, y, z in zip(l0, l1, l2):
+                    if not (x == y == z):
+                        print("   ", x, "|", y, "|", z)
+                        break
+        sys.exit(2 if bad else 0)
 
     if a.cmd == "check":
         build()
